@@ -28,7 +28,7 @@ func init() {
 	core.Register(&core.Prop{
 		ID:    "C08",
 		Level: "exploration",
-		Rule: "one case = (filter chain of 0..10 entries over all filter names incl. unknown ones, /DecodeParms valid, mutated or type-confused, body = valid encoding / JPEG / crafted bomb / JPEG forged marker by marker (scan programs, custom Huffman tables, scan bombs) / JBIG2 forged segment by segment (all region and dictionary types, globals stream) / random bytes, then corrupted by bit flips, overwrites, splices, truncation) " +
+		Rule: "one case = (filter chain of 0..10 entries over all filter names incl. unknown ones, /DecodeParms valid, mutated or type-confused, body = valid encoding / JPEG / crafted bomb / JPEG forged marker by marker (scan programs, custom Huffman tables, scan bombs) / LZW code sequences packed by hand (no clear code after the table is full, repeated top code, KwKwK at any time) / JBIG2 forged segment by segment (all region and dictionary types, globals stream) / random bytes, then corrupted by bit flips, overwrites, splices, truncation) " +
 			"x decode path (pdf.DecodeStream on a Getter that may hold indirect and cyclic filter parameters, or MakeFilter+Decode directly with a drawn small memory budget and a chunked source) x consumer behaviour (drain with drawn buffer sizes, or Close early at read k). " +
 			"Chains containing DCTDecode run inside a testing/synctest bubble so that a helper goroutine left behind is detected exactly. non-trivial = body non-empty and at least one filter; distinct = hash of (chain, parameter shape, body length, corruption kinds, path, consumer).",
 		Assumptions: []string{
@@ -167,7 +167,7 @@ func Run(e *core.Env) {
 	var names []pdf.Name
 	var parms []pdf.Object
 	var body []byte
-	base := t.Weighted("base", 5, 3, 3, 2, 3, 4)
+	base := t.Weighted("base", 5, 3, 3, 2, 3, 4, 2)
 	var globals []byte
 	baseDesc := ""
 	switch base {
@@ -299,6 +299,15 @@ func Run(e *core.Env) {
 			parms = append(parms, pdf.Dict{"ColorTransform": pdf.Integer(t.Draw("fj.ct.v", 2))})
 		} else {
 			parms = append(parms, nil)
+		}
+	case 6: // LZW codes packed by hand
+		var ec int
+		body, ec, baseDesc = forge.LZW(t, "lz")
+		names = append(names, "LZWDecode")
+		if ec == 1 && t.Bool("lz.noparms", 1, 2) {
+			parms = append(parms, nil)
+		} else {
+			parms = append(parms, pdf.Dict{"EarlyChange": pdf.Integer(ec)})
 		}
 	case 5: // JBIG2 assembled segment by segment
 		body, globals, baseDesc = forge.JBIG2(t, "jb")
@@ -594,7 +603,10 @@ func decodeAndCheck(e *core.Env, g *getter, dict pdf.Dict, body, globals []byte,
 			e.Fail("unbounded-output", attrs, "%d bytes drained from a %d byte CCITTFax body and still going (dict %s)", drained, len(body), gen.Show(dict))
 			break
 		}
-		if drained > limit {
+		if drained > limit || reads >= 1<<20 {
+			// the second cap: a consumer that asks for one byte at a time pays
+			// a per-call cost that is the consumer's choice, not the decoder's
+			// (CCITTFax moves the rest of a 128 KiB row on every call)
 			e.Probe("drain cap reached")
 			break
 		}
